@@ -561,4 +561,36 @@ theorem pw_eq_pmod : ∀ (i : Nat), pw prim size i = pmod prim (2 ^ i)
 
 end ops
 
+
+/-! ## the same facts for a field `F` with `FieldOK F` -/
+
+section F
+variable {F : GF} (hF : FieldOK F)
+include hF
+
+theorem F_mul (a b : Nat) (ha : a < F.size) (hb : b < F.size) : F.mul a b = .ok (gmul F.prim a b) := by
+  have := mk'_mul hF.2 F.base a b ha hb
+  rw [← hF.1] at this
+  exact this
+
+theorem F_inv (a : Nat) (h0 : a ≠ 0) (ha : a < F.size) :
+    ∃ v, F.inv a = .ok v ∧ v < F.size ∧ v ≠ 0 ∧ gmul F.prim a v = 1 := by
+  have := mk'_inv hF.2 F.base a h0 ha
+  rw [← hF.1] at this
+  exact this
+
+theorem F_exp (i : Nat) (hi : i < F.size) : F.expAt i = .ok (pw F.prim F.size i) := by
+  have := exp_get hF.2 F.base i hi
+  rw [← hF.1] at this
+  exact this
+
+theorem F_log_pw (j : Nat) (hj : j < F.size - 1) : F.logOf (pw F.prim F.size j) = .ok j := by
+  have := log_get hF.2 F.base j hj
+  rw [← hF.1] at this
+  unfold GF.logOf
+  rw [if_neg (pw_ne_zero hF.2 j)]
+  exact this
+
+end F
+
 end Gzx.Proofs.GF
